@@ -96,7 +96,8 @@ package tree
 //@   requires t != nil
 //@   allocates []*Node
 //@   assigns nothing
-//@   ensures [elements_non_nil] forall k int :: 0 <= k && k < len(result) ==> result[k] != nil
+//@   ensures [elements_non_nil] forall k int :: {result[k]} 0 <= k && k < len(result) ==> result[k] != nil && allocated(result[k])
+//@   ensures [elements_distinct] forall k int, j int :: {result[k], result[j]} 0 <= k && k < j && j < len(result) ==> result[k] != result[j]
 //@   ensures [fresh_storage] fresh_arr(result)
 
 //@ func (*tree.Tree).Newick
@@ -259,3 +260,69 @@ package tree
 //@     invariant [branches] forall k int :: 0 <= k && k < len(edges) ==> edges[k] != nil
 //@     invariant [sound] forall k int :: 0 <= k && k < len(depthbranches) ==> depthbranches[k] != nil && indepth(depthbranches[k], mindepthThreshold, maxdepthThreshold)
 //@     invariant [complete] forall j int :: {edges[j]} 0 <= j && j <= rangeindex && indepth(edges[j], mindepthThreshold, maxdepthThreshold) ==> (exists k int :: {depthbranches[k]} 0 <= k && k < len(depthbranches) && depthbranches[k] == edges[j])
+
+// ---------------------------------------------------------------------------
+// Shared representation invariant (local part): adjacency arrays are parallel
+// and hold no nil entry. Quantified over all allocated nodes (DESIGN 3.2).
+// ---------------------------------------------------------------------------
+
+//@ define nodeok(n *Node) bool = len(n.neigh) == len(n.br) && alloc_ok(n.neigh) && alloc_ok(n.br) && (forall i int :: {n.neigh[i]} {n.br[i]} 0 <= i && i < len(n.neigh) ==> n.neigh[i] != nil && n.br[i] != nil)
+//@ define INV12() bool = forall n *Node :: {n.neigh} {n.br} allocated(n) ==> nodeok(n)
+
+// ---------------------------------------------------------------------------
+// Distance matrix (property C14): the weight added per branch, per metric
+// ---------------------------------------------------------------------------
+
+//@ define metricweight(e *Edge, metric int) float64 = metric == 1 ? (e.support == -1 ? 1.0 : e.support) : (metric == 2 ? 1.0 : (e.length == -1 ? 0.0 : e.length))
+
+//@ func tree.pathLengths
+//@   requires cur != nil && INV12()
+//@   requires forall n *Node :: {n.id} allocated(n) && len(n.neigh) == 1 ==> 0 <= n.id && n.id < len(lengths)
+//@   assigns elems(lengths)
+//@   call tree.pathLengths [recursion_goes_to_the_child_away_from_prev] a0 == child && a1 == cur && a0 != prev && a2 == lengths && a4 == metric
+//@   call tree.pathLengths [accumulates_the_metric_weight_of_the_branch] a3 == curlength + metricweight(e, metric)
+//@   loop 1
+//@     assigns elems(lengths)
+//@     invariant [inv_kept] INV12()
+//@     invariant [ids_kept] forall n *Node :: {n.id} allocated(n) && len(n.neigh) == 1 ==> 0 <= n.id && n.id < len(lengths)
+
+// Length-threshold clusters (property C14): the flood fill crosses exactly the branches strictly shorter than the threshold
+//@ func (*tree.TipBag).AddTip
+//@   requires tb != nil && tb.tips != nil
+//@   allocates iface
+//@   assigns mapof(tb.tips)
+//@   ensures [added_or_error] result == nil ==> t != nil && has(tb.tips, t.name)
+
+//@ func (*tree.Tree).cutEdgesMaxLengthRecur
+//@   requires INV12() && tipBag != nil && tipBag.tips != nil
+//@   requires forall e *Edge :: {e.id} allocated(e) ==> 0 <= e.id && e.id < len(visited)
+//@   assigns elems(visited), mapof("map[string]*Node")
+//@   allocates iface
+//@   call (*tree.Tree).cutEdgesMaxLengthRecur [crosses_only_branches_strictly_shorter_than_the_threshold] b.length < maxlen
+//@   call (*tree.Tree).cutEdgesMaxLengthRecur [moves_to_the_neighbour_away_from_prev] a2 == n && a3 == cur && a2 != prev && a1 == tipBag && a4 == maxlen && a5 == visited
+//@   call (*tree.TipBag).AddTip [collects_the_tip_reached] a1 == cur && len(cur.neigh) == 1 && a0 == tipBag
+//@   loop 1
+//@     assigns elems(visited), mapof("map[string]*Node")
+//@     invariant [inv_kept] INV12()
+//@     invariant [ids_kept] forall e *Edge :: {e.id} allocated(e) ==> 0 <= e.id && e.id < len(visited)
+
+//@ func (*tree.Tree).CutEdgesMaxLength
+//@   flag noframe
+//@   requires t != nil && INV12()
+//@   call (*tree.Tree).cutEdgesMaxLengthRecur [flood_starts_only_across_a_branch_strictly_shorter_than_the_threshold] e.length < maxlen && a4 == maxlen
+//@   call (*tree.TipBag).AddTip [tip_of_a_cut_tip_branch_gets_its_own_bag] !(e.length < maxlen) && len(a1.neigh) == 1 && (a1 == e.left || a1 == e.right)
+
+//@ func (*tree.Tree).ToDistanceMatrix
+//@   flag noframe
+//@   requires t != nil && INV12()
+//@   call tree.pathLengths [row_i_is_filled_by_a_walk_from_tip_i] a0 == tips[rangeindex + 1] && a1 == nil && a2 == matrix[rangeindex + 1] && a3 == 0.0 && a4 == metric
+//@   ensures [square_matrix_indexed_like_the_tip_list] len(result0) == len(result1) && (forall i int :: {result0[i]} 0 <= i && i < len(result0) ==> len(result0[i]) == len(result1))
+//@   ensures [tip_i_has_identifier_i] forall i int :: {result1[i]} 0 <= i && i < len(result1) ==> result1[i] != nil && result1[i].id == i
+//@   loop 1
+//@     invariant [tips] forall k int :: {tips[k]} 0 <= k && k < len(tips) ==> tips[k] != nil
+//@     invariant [rows_so_far] len(matrix) == len(tips) && (forall i int :: {matrix[i]} 0 <= i && i <= rangeindex ==> len(matrix[i]) == len(tips))
+//@     invariant [ids_so_far] forall i int :: {tips[i]} 0 <= i && i <= rangeindex ==> tips[i].id == i
+//@   loop 2
+//@     invariant [tips] forall k int :: {tips[k]} 0 <= k && k < len(tips) ==> tips[k] != nil
+//@     invariant [rows] len(matrix) == len(tips) && (forall i int :: {matrix[i]} 0 <= i && i < len(tips) ==> len(matrix[i]) == len(tips))
+//@     invariant [ids] forall i int :: {tips[i]} 0 <= i && i < len(tips) ==> tips[i].id == i
